@@ -356,7 +356,7 @@ PROPS["C01"] = {
     "modules": ["SlogModel.Props.C01", "SlogModel.Lemmas.ClientRefine"],
     "components": [("agent-c01", 100, 800), ("client", 300, 5000), ("buffer", 120, 2000)],
     "rule": 'one case = one end-to-end run of the real agent in process (run.NewLoaderFromConfigFile -> StartOrchestrator -> LaunchInputs: TCP syslog input, extractions, transforms incl. a 100% drop filter, byKeySet orchestration, hybrid buffer, Fluentd Forward output in one of the three message modes) against a scripted fake upstream (per connection attempt: close at once / reset after k chunks / never ACK / late ACK / unknown-id ACK / healthy), 1-3 generations of graceful stop + restart on one queue directory, 1-3 client connections x 10-90 stamped records over 1-3 key sets with malformed and filtered records mixed in, stop after 0-100 ms, upstream session age 0/20/50/150 ms; all timeouts scaled to 10 ms - 2 s; the last generation ends with a healthy upstream; distinct by script; all non-trivial',
-    "level_text": 'Theorems over every action sequence of E2E.step (chunk-level system of one pipeline and output across generations; each action is the contract proved for a component: C11 packing, C03 buffer, C02 client, C04 persistence): C01_every_record_accounted (each record read is in the open chunk or in exactly one chunk, which is in exactly one of queued / in flight / acknowledged / counted dropped / on disk), C01_at_rest (while stopped: acknowledged, on disk or counted dropped - nothing only in memory), C01_drained (after a healthy drain: acknowledged or counted dropped), C01_chunk_in_one_place. Refinement (Lemmas/ClientRefine.lean): C01_client_refines_e2e - for every run of the client transition system Client.step (every interleaving of sender, acknowledger and worker loop, every outcome of connect / send / ACK read, every stop moment) the chunk-level view of the client state (waiting = queue, held by the session = in flight, confirmations = acknowledged, handed back + never taken = disk) moves exactly as E2E.step does, each client action being invisible or exactly one of take / ack / connFail / stop (sim_step, sim_run), so the client-side contracts of E2E.step are theorems about Client.step; C01_at_rest_through_client (after any earlier history and any client run up to OnFinished every record read is in a chunk acknowledged, handed back or never taken, or counted dropped). C01_delivered_once_upstream_behaves (at least once, without assuming the drained state: after any history and any faulty client run that ends in a good state, every fault-free client run that cannot be continued - each is at most mu steps long under every interleaving - leaves every record read so far in a chunk the upstream acknowledged or in one counted as dropped; composed from the refinement, the bounded fault-free future of C02 and C01_drained). Interface buffer -> client: C01_buffer_hands_chunks_in_id_order (after any operation sequence of the buffer model the ids the consumer receives increase strictly, given increasing ids of what was recovered and accepted: C03_recovered_first, C11_ids_increasing), which is the precondition of the refinement (C01_buffer_client_refine_e2e). Tie: the end-to-end harness evaluates the conclusion of C01_drained / C01_at_rest and byte identity of every delivered message on real runs; the component models are tied by C02 / C03 / C04 / C11.',
+    "level_text": 'Theorems over every action sequence of E2E.step (chunk-level system of one pipeline and output across generations; each action is the contract proved for a component: C11 packing, C03 buffer, C02 client, C04 persistence): C01_every_record_accounted (each record read is in the open chunk or in exactly one chunk, which is in exactly one of queued / in flight / acknowledged / counted dropped / on disk), C01_at_rest (while stopped: acknowledged, on disk or counted dropped - nothing only in memory), C01_drained (after a healthy drain: acknowledged or counted dropped), C01_chunk_in_one_place. Refinement (Lemmas/ClientRefine.lean): C01_client_refines_e2e - for every run of the client transition system Client.step (every interleaving of sender, acknowledger and worker loop, every outcome of connect / send / ACK read, every stop moment) the chunk-level view of the client state (waiting = queue, held by the session = in flight, confirmations = acknowledged, handed back + never taken = disk) moves exactly as E2E.step does, each client action being invisible or exactly one of take / ack / connFail / stop (sim_step, sim_run), so the client-side contracts of E2E.step are theorems about Client.step; C01_at_rest_through_client (after any earlier history and any client run up to OnFinished every record read is in a chunk acknowledged, handed back or never taken, or counted dropped). C01_delivered_once_upstream_behaves (at least once, without assuming the drained state: after any history and any faulty client run that ends in a good state, every fault-free client run that cannot be continued - each is at most mu steps long under every interleaving - leaves every record read so far in a chunk the upstream acknowledged or in one counted as dropped; composed from the refinement, the bounded fault-free future of C02 and C01_drained). C01_at_rest_after_every_stop_run (after a stop request every run of the stop path that cannot be continued - at most six steps, C18 - ends finished, and every record read so far is then acknowledged, handed back or never taken, or counted dropped). Interface buffer -> client: C01_buffer_hands_chunks_in_id_order (after any operation sequence of the buffer model the ids the consumer receives increase strictly, given increasing ids of what was recovered and accepted: C03_recovered_first, C11_ids_increasing), which is the precondition of the refinement (C01_buffer_client_refine_e2e). Tie: the end-to-end harness evaluates the conclusion of C01_drained / C01_at_rest and byte identity of every delivered message on real runs; the component models are tied by C02 / C03 / C04 / C11.',
     "level_note": "Trusted: Lean kernel + 3 standard axioms; the abstraction of the packer and the buffer to their proved contracts (the client side of E2E.step is a mechanised refinement of Client.step; the buffer side - accept / drop / save at stop / recover at start - is composed by reading C03's theorems, not by a refinement proof between Buffer.step and E2E.step; in the refinement the client is given the chunks queued for it up front, as Client.init does); sampled end-to-end runs. PARTIAL: 'eventually acknowledged' is a theorem for the client side once the upstream behaves (C01_delivered_once_upstream_behaves), under the assumption that the goroutines take their steps and with the chunks given to the client up front; that the buffer eventually hands every queued chunk to the client is the FIFO / conservation of C03 plus the same fairness assumption; multi-output configurations are independent copies (C12 harness).",
     "partial": 'client side refined mechanically, buffer / packer side composed by contracts; eventual delivery proved for the client side once the upstream behaves, scheduler fairness assumed',
     "assumptions": ["the composition of component contracts in E2E.step matches how the components are wired (read from orchestrate/, buffer/, output/)"],
